@@ -41,6 +41,7 @@ RULE_TEXT = {
     "ITER-4": "addresses are never ordered (only ==, != and hashing)",
     "ITER-5": "no group-sized loop or linear scan is nested in a group-sized loop",
     "CG-1": "the crate's call graph is acyclic",
+    "KEY-1": "Link's PartialEq compares pointer and kind of both operands, its Hash reads no field PartialEq ignores, and both are effect-free",
 }
 
 PROPS = {
@@ -51,8 +52,8 @@ PROPS = {
     "C05": ["TS-2", "TS-3", "TS-4", "TS-7", "TS-8", "TS-9", "GATE-5", "EFF-2", "API-1"],
     "C06": ["EFF-2", "EFF-3", "EFF-4", "TS-8", "TS-9", "PROV-1", "GATE-4", "GATE-6", "API-1"],
     "C07": ["FWD-1", "API-1", "TS-6", "TS-7", "TS-8", "TS-9", "GATE-3"],
-    "C08": ["SYM-1", "SYM-2", "SYM-3", "SYM-4", "EFF-4"],
-    "C09": ["ITER-1", "ITER-2", "ITER-3", "ITER-4", "TS-2"],
+    "C08": ["SYM-1", "SYM-2", "SYM-3", "SYM-4", "EFF-4", "KEY-1"],
+    "C09": ["ITER-1", "ITER-2", "ITER-3", "ITER-4", "TS-2", "KEY-1"],
     "C10": ["BRW-1", "BRW-2", "BRW-3", "TS-2", "TS-3", "SYM-3"],
     "C11": ["UNW-1", "TS-2", "TS-6", "BRW-1"],
     "C12": ["KILL-1", "EFF-2", "TS-1", "TS-9", "SYM-3"],
